@@ -244,9 +244,54 @@ fn format_event(content: &Value, from_api: bool) -> Value {
     }
 }
 
+/// Large archives built by rule (counts beyond 2^16): only the header and a summary travel to TLC, which checks the
+/// header totals against the rule's numbers; the full comparison of the re-parsed archive with the built content is
+/// done here (assumption recorded in the evidence: the middle of such an image is not examined by the specification).
+fn big_event(endian: &str, cells: usize, every_text: usize, every_ptr: usize, every_label: usize) -> Value {
+    let r = catch(|| -> Result<Value, String> {
+        let en = endian_of(&json!(endian));
+        let mut a = BinArchive::new(en);
+        a.allocate_at_end(cells * 4);
+        let (mut nt, mut np, mut nl) = (0usize, 0usize, 0usize);
+        for c in 0..cells {
+            let addr = c * 4;
+            if every_text > 0 && c % every_text == 0 {
+                a.write_string(addr, Some(&format!("s{:03}", c % 300))).map_err(|e| e.to_string())?;
+                nt += 1;
+            } else if every_ptr > 0 && c % every_ptr == 1 {
+                a.write_pointer(addr, Some((c * 7) % (cells * 4 + 1))).map_err(|e| e.to_string())?;
+                np += 1;
+            } else {
+                a.write_u32(addr, 0x0101_0101u32.wrapping_mul(c as u32 | 1)).map_err(|e| e.to_string())?;
+            }
+            if every_label > 0 && c % every_label == 0 {
+                a.write_label(addr, &format!("L{:06}", c)).map_err(|e| e.to_string())?;
+                nl += 1;
+            }
+        }
+        let before = project(&a, endian);
+        let bytes = a.serialize().map_err(|e| format!("serialize: {}", e))?;
+        let b = BinArchive::from_bytes(&bytes, en).map_err(|e| format!("from_bytes: {}", e))?;
+        let after = project(&b, endian);
+        let equal = masked_equal(&after, &before).is_ok();
+        let again = b.serialize().map(|x| x == bytes).unwrap_or(false);
+        Ok(json!({"op": "big", "endian": endian, "size": cells * 4, "n_text": nt, "n_ptrs": np, "n_label_names": nl,
+                  "len": bytes.len(), "head": bytes[..32.min(bytes.len())].to_vec(), "reparsed_equal": equal, "stable": again}))
+    });
+    match r {
+        Ok(Ok(v)) => v,
+        Ok(Err(e)) | Err(e) => json!({"op": "failed", "why": e, "content": {"endian": endian, "data": [], "text": [], "ptrs": [], "labels": [], "cstr": []}}),
+    }
+}
+
 fn format_record(out_path: &str, n: usize, maxcells: usize) {
     let mut rng = Rng::new(seed_from_env() ^ 0xC01);
     let mut out = NdWriter::create(out_path);
+    // counts around and beyond 2^16 (pointer table, label table, string cells)
+    out.put(&big_event("le", 70_000, 1, 0, 0));        // 70 000 string cells
+    out.put(&big_event("be", 70_000, 0, 2, 0));        // 35 000 internal pointers
+    out.put(&big_event("le", 66_000, 3, 3, 1));        // 66 000 labels + mixed cells
+    out.put(&big_event("be", 65_537, 2, 2, 2));
     for i in 0..n {
         let mc = if i % 10 == 9 { maxcells } else { 1 + (i % 12).min(maxcells) };
         let content = random_content(&mut rng, mc, i % 3 != 0);
